@@ -1,8 +1,8 @@
 (* GraphSrcGraph.v — parser model -> graph for SOURCE statements, with conditions on the source side only:
    a statement  NAME[k] = rhs  spelled in the documented syntax (terms as NAME, { NAME }, < NAME >, any index-bracket layout,
    [0] written or not) that satisfies the decidable dq_ok (it lexes token by token, no "#", brackets balanced, …) and sep_ok
-   (names not keyword-prefixed, no keyword glued to a braced term, no keyword right after "<") and does not call its own
-   assigned name as a function.  No hypothesis about the normalised equation the parser produces: its well-formedness is
+   (names not keyword-prefixed, no keyword glued to a braced term, no keyword right after "<").
+   No hypothesis about the normalised equation the parser produces: its well-formedness is
    GraphSrcWf.dq_ok_neq_wf. *)
 From Coq Require Import String Ascii List Bool Arith ZArith.
 Import ListNotations.
@@ -11,21 +11,21 @@ Require Import Layout Denorm DenormFacts GraphParseFacts GraphScriptFacts GraphS
 Open Scope string_scope.
 
 Definition stmt_src_q (lay : layout) (q : neq) : Prop :=
-  exists y ky ws r, q = mkNeq (NTerm y (IInt ky) :: ws) r /\ dq_ok lay q = true /\ sep_ok lay r = true /\ no_function_named y r = true.
+  exists y ky ws r, q = mkNeq (NTerm y (IInt ky) :: ws) r /\ dq_ok lay q = true /\ sep_ok lay r = true.
 
 Lemma stmt_src_ok lay q : stmt_src_q lay q -> stmt_ok_q lay q.
 Proof.
-  intros (y & ky & ws & r & -> & Hq & Hs & Hf). exists y, ky, ws, r. repeat split; try assumption.
+  intros (y & ky & ws & r & -> & Hq & Hs). exists y, ky, ws, r. repeat split; try assumption.
   apply (dq_ok_neq_wf lay _ Hq Hs).
 Qed.
 
 Theorem source_statement_graph lay y ky ws r syms :
   let q := mkNeq (NTerm y (IInt ky) :: ws) r in
-  dq_ok lay q = true -> sep_ok lay r = true -> no_function_named y r = true ->
+  dq_ok lay q = true -> sep_ok lay r = true ->
   parse_equation_M (denorm_text lay q) = POk syms ->
   symbols_to_graph_M syms = Ret (graph_of [q]) /\ neq_wf q = true.
 Proof.
-  intros q Hq Hs Hf Hp. pose proof (dq_ok_neq_wf lay q Hq Hs) as W. split; [apply (reparsed_graph lay y ky ws r syms Hq W Hf Hp)|exact W].
+  intros q Hq Hs Hp. pose proof (dq_ok_neq_wf lay q Hq Hs) as W. split; [apply (reparsed_graph lay y ky ws r syms Hq W Hp)|exact W].
 Qed.
 
 Theorem source_script_graph lay qs s syms :
